@@ -1096,8 +1096,10 @@ class _Transpose(Array):
 
     def __init__(self, arg: Array, axes: Tuple[int, ...]) -> None:
         self._arg = arg
-        self._axes = tuple(n.__index__() for n in axes)
-        super().__init__(tuple(arg.shape[axis] for axis in axes), arg.dtype, arg.spaces, arg.arguments)
+        self._axes = tuple(numeric.normdim(arg.ndim, n.__index__()) for n in axes)
+        if sorted(self._axes) != list(range(arg.ndim)):
+            raise ValueError('axes do not match array')
+        super().__init__(tuple(arg.shape[axis] for axis in self._axes), arg.dtype, arg.spaces, arg.arguments)
 
     def lower(self, args: LowerArgs) -> evaluable.Array:
         arg = self._arg.lower(args)
